@@ -24,10 +24,13 @@ Calls1 == {Funcs[i] \o "(" \o Args[j] \o ")" : i \in 1..Len(Funcs), j \in 1..Len
 Calls2 == {Funcs[i] \o "(" \o Args[j] \o ", " \o Args[k] \o ")" : i \in {1, 2, 3, 4, 5, 8, 10}, j \in 1..Len(Args), k \in 1..Len(Args)}
 Calls4 == {f \o "(v, h, r, 2)" : f \in {"top", "bottom", "mean", "unknownfn"}} \cup {f \o "(v, h, 'x', /re/, *)" : f \in {"top", "bottom", "count"}}
 
-Ariths == {"10s / 0.5", "10s / 0", "10s / 0.0", "10s * 2.5", "10s / 2", "1s + 'x'", "1 / 0", "1 % 0", "1.5 % 0", "'a' + 'b'", "v / 0", "1s - 2s", "now() - 1s + 3",
+Ariths == {"1h / 0s", "10m % 0s", "1h / 1m", "1h % 7m", "0s / 0s", "1s * 1s", "1s & 1s", "1s / 1", "1s % 0", "10s / 0.5", "10s / 0", "10s / 0.0", "10s * 2.5", "10s / 2", "1s + 'x'", "1 / 0", "1 % 0", "1.5 % 0", "'a' + 'b'", "v / 0", "1s - 2s", "now() - 1s + 3",
            "9223372036854775807 + 1", "-9223372036854775808 / -1", "9223372036854775808 / 0", "9223372036854775808 - 1", "1 + 9223372036854775808",
            "'2000-01-01T00:00:00Z' - 1s", "'2000-01-01' + 1", "'2000-01-01T00:00:00Z' - '1999-01-01T00:00:00Z'", "1s * 9223372036854775807",
            "true & false", "true | 1", "1 & 1.5", "mean(v) / 0", "(10s / 0.5)", "-(10s) / 0.1"}
+
+BinOps == {"+", "-", "*", "/", "%", "&", "|", "^", "=", "!=", "<", "<=", ">", ">=", "AND", "OR"}
+BinArgs == <<"v", "'s'", "1", "0", "1.5", "0.0", "true", "10s", "0s", "now()", "9223372036854775808", "'2000-01-01T00:00:00Z'", "time">>
 
 Dims == {"", "h", "*", "/re/", "time()", "time(0s)", "time(-1s)", "time(1s)", "time(1s, 0s)", "time(0s, 1s)", "time(1s, 1s, 1s)", "time(v)", "time('x')", "time(1s, now())",
          "time(1s, '2000-01-01T00:00:00Z')", "time(1s, 'x')", "time(1s, 1)", "time(1, 1s)", "time(1.5)", "time(10s / 0.5)", "foo(1)", "foo()", "1", "'x'", "time(1s), time(2s)",
@@ -38,6 +41,10 @@ Conds == {"", "time > now() - 1h", "time != 1", "time =~ /a/", "'x' =~ /a/", "1 
           "v", "1", "'x'", "*", "/re/", "f()", "10s / 0.5 > 1s", "time > now() - 10s / 0.5", "h = 'a' OR (time > 1 AND time < 2)", "true AND false", "v =~ /^(a|b)$/ OR w !~ /^c$/",
           "h =~ /(?i)^a$/", "h =~ /^$/", "time > 'x' - 1s", "time() > 1", "time > time", "(time > 1) = true", "v > 9223372036854775808", "time > 9223372036854775808",
           "h IN", "time >= '2000-01-01' AND time <= '2000-01-01' + 1d"}
+
+\* field lists with repeated / aliased time fields (RewriteTimeFields) and other repeated names
+FieldLists == {"time", "time, time", "time, v, time", "v, time AS a, w, time AS b", "time AS t", "*, time", "time, *", "v, v, v", "v AS time, time",
+               "time::tag", "mean(time)", "time + 1", "(time)", "\"time\"", "time, time, time, time", "v, time, time"}
 
 Tails == {"", "fill(0)", "fill(none) LIMIT 0", "ORDER BY time DESC SLIMIT 1", "fill(linear) tz('UTC')"}
 
@@ -55,6 +62,11 @@ Gen == /\ ~done
                                     /\ Emit(Sel("mean(v)", "", "time(1m), " \o a, ""), "arith-dim") /\ Emit(Sel("f(" \o a \o ")", "", "", ""), "arith-arg")
                /\ \A j \in 1..Len(Args) : /\ Emit(Sel(Args[j], "", "", ""), "leaf-field") /\ Emit(Sel("v", Args[j], "", ""), "leaf-where")
                                           /\ Emit(Sel(Args[j] \o " AS a, " \o Args[j], "", Args[j], ""), "leaf-everywhere")
+               /\ \A fl \in FieldLists : \A d \in {"", "time(1m)", "h"} : /\ Emit(Sel(fl, "", d, ""), "fieldlist") /\ Emit("SELECT " \o fl \o " INTO t FROM m", "fieldlist-into")
+               \* every operator between every pair of a reduced argument list, as a condition and (arithmetic) as a field
+               /\ \A o \in BinOps : \A j \in 1..Len(BinArgs) : \A k \in 1..Len(BinArgs) :
+                    /\ Emit(Sel("v", BinArgs[j] \o " " \o o \o " " \o BinArgs[k], "", ""), "binop-where")
+                    /\ IF o \in {"+", "-", "*", "/", "%", "&", "|", "^"} THEN Emit(Sel(BinArgs[j] \o " " \o o \o " " \o BinArgs[k], "", "", ""), "binop-field") ELSE TRUE
           ELSE IF Part = "dims"
           THEN \A d \in Dims : \A f \in {"v", "mean(v)", "top(v, 1), h", "*"} : \A tl \in Tails : Emit(Sel(f, "", d, tl), "dim")
           ELSE IF Part = "conds"
